@@ -90,7 +90,7 @@ func (vc *VC) Generate() (err error) {
 	// cover: some return is reachable under the assumptions (vacuity guard)
 	if len(vc.retBlocks) > 0 {
 		vc.cur = nil
-		o := vc.oblige("cover", "return-reachable", or(vc.retBlocks...), nil, fn.Pos(), nil)
+		o := vc.oblige("cover", "return-reachable", or(vc.retBlocks...), vc.tagsOfFunc(), fn.Pos(), nil)
 		o.Cover = true
 		o.Reach = "true"
 	}
@@ -116,7 +116,7 @@ func (vc *VC) fail(f string, a ...any) { panic(genErr(fmt.Sprintf(f, a...))) }
 
 func (vc *VC) bindingFailure(c *Clause, why string) {
 	vc.cur = nil
-	o := vc.oblige("contract-binding", "", "false", c.Tags, token.NoPos, c)
+	o := vc.oblige("contract-binding", "", "false", mergeTags(c.Tags, vc.tagsOfFunc()), token.NoPos, c)
 	o.Reach = "true"
 	o.Detail["why"] = why
 }
